@@ -74,7 +74,7 @@ Ltac step_inv H :=
   repeat match type of H with
          | context [match ?x with _ => _ end] => destruct x eqn:?; try discriminate H
          end;
-  inversion H; subst; clear H.
+  injection H as ? ? ?; subst.
 
 (** effect on the mutex *)
 Lemma step_mutex i w s q c s' c' evs :
